@@ -149,6 +149,36 @@ package fsm
 //@   ensures[failsafe] err != nil ==> allTokens(s) == old(allTokens(s))
 //@   ensures[frame] supTotal(s) == old(supTotal(s)) && poolBal() == old(poolBal()) && poolSum(s) == old(poolSum(s))
 
+// ---- C12: shrinking MaxCommittees re-files every affected validator under its NEW committees ------------------------
+// The tallies are debited with the OLD record: what UpdateCommittees / UpdateDelegations receive as oldValidator is the
+// validator exactly as it was read from state (recCommittees / recStake of the stored bytes), not a record that has
+// already been trimmed to the new list.
+//@ spec func recCommittees(bz BSeq) []uint64
+//@ spec func recStake(bz BSeq) uint64
+//@ func (*StateMachine).unmarshalValidator
+//@   trusted
+//@   pure
+//@   ensures isnil(result1) ==> result0 != nil && fresh(result0) && result0.Committees == recCommittees(bytes(bz)) && result0.StakedAmount == recStake(bytes(bz))
+//@ func (*StateMachine).ConformStateToParamUpdate$2
+//@   callsite UpdateCommittees requires[snapshot] callee.oldValidator == v && v.Committees == recCommittees(bytes(value)) && v.StakedAmount == recStake(bytes(value)) && callee.newCommittees == newCommittees
+//@   callsite UpdateDelegations requires[snapshot] callee.oldValidator == v && v.Committees == recCommittees(bytes(value)) && v.StakedAmount == recStake(bytes(value)) && callee.newCommittees == newCommittees
+
+// ---- C13 / C07: a cloned state machine decodes its parameters from ITS OWN state -----------------------------------
+// Copy() gives the mempool an ephemeral state machine. The parameter caches hold pointers to decoded objects that
+// UpdateParam mutates in place, and the live-validator list is filled per height: the clone starts with none of them
+// (so the committee cap, the delegate cap and the candidate list it uses are read from its own store), and with a
+// cache object, account / pool caches, event tracker and slash tracker of its own.
+//@ func (lib.StoreI).Copy
+//@   trusted
+//@   pure
+//@ func NewSlashTracker
+//@   trusted
+//@   pure
+//@   ensures result != nil && fresh(result)
+//@ func (*StateMachine).Copy
+//@   ensures[ownparams] isnil(result1) ==> result0 != nil && fresh(result0) && result0.cache != nil && fresh(result0.cache) && result0.cache.valParams == nil && result0.cache.feeParams == nil && result0.cache.liveValidators == nil
+//@   ensures[owntrackers] isnil(result1) ==> fresh(result0.cache.accounts) && fresh(result0.cache.pools) && result0.events != nil && fresh(result0.events) && result0.slashTracker != nil && fresh(result0.slashTracker)
+
 // ---- C13: who is eligible for a committee --------------------------------------------------------------
 // inCommittees(cs, id): chain id occurs in the validator's committee list
 //@ spec func inCommittees(cs []uint64, id int) bool = exists k int :: 0 <= k && k < len(cs) && cs[k] == id
@@ -224,6 +254,7 @@ package fsm
 //@   trusted
 //@   pure
 //@   ensures s != nil ==> result != nil && fresh(result)
+//@   ensures s == nil ==> result == nil
 
 // The signature pass: every signature queued in the batch verifier has an entry in batchToTxIdx (the two
 // stay the same length after every transaction, whether or not its check failed), so a failed batch index
@@ -248,6 +279,10 @@ package fsm
 //@   callsite ApplyTransaction requires[notfailed] !indom(failedCheckTxs, i)
 //@   callsite ApplyTransaction requires[firstseen] !found && indom(deDuplicator.m, hashString) && callee.txHash == hashString
 //@   loop 4 iterensures[store] !isnil(currentStore) ==> s.store == currentStore
+// the tracker snapshot a failed transaction is rolled back to is taken anew for EVERY transaction (a snapshot carried
+// over from an earlier iteration would forget the slashes of the successful transactions in between - and with them
+// part of the per-block slash budget of C14)
+//@   loop 4 iterensures[snapshotpertx] !isnil(currentStore) && preTxSlashTracker != nil ==> freshiter(preTxSlashTracker)
 //@   loop 4 iterensures[restored] !isnil(currentStore) && !isnil(e) ==> s.slashTracker == preTxSlashTracker && s.cache.valParams == nil && s.cache.feeParams == nil && (forall k uint64 :: !indom(s.cache.accounts, k)) && (forall k uint64 :: !indom(s.cache.pools, k)) && (s.events != nil ==> s.events.Events == nil)
 
 // ---- C05: authorization -----------------------------------------------------------------------------------
@@ -721,6 +756,23 @@ package fsm
 //@   loop 1 invariant[conserve] drift(s) == old(drift(s))
 //@   loop 1 invariant[minted] supTotal(s) == old(supTotal(s)) + daoCut + iter * mintAmountPerCommittee && iter <= len(subsidizedChainIds)
 //@   ensures[conserve] result == nil ==> drift(s) == old(drift(s))
+// paying out the committees at the end of a block: per committee, what the recipients receive plus what is burned is the
+// pool that is emptied. The burn is computed in uint64 as pool - paid; that "paid <= pool" (the sum of the percents is at
+// most 100 per sample) is a data invariant of CommitteeData established where samples are merged and is not decided here,
+// so conservation is stated modulo 2^64 - exact whenever that subtraction does not wrap.
+//@ func (*StateMachine).GetCommitteesData
+//@   trusted
+//@   pure
+//@ func (*StateMachine).SetCommitteesData
+//@   trusted
+//@   modifies ghost(kvHas)
+//@ func (*StateMachine).EventReward
+//@   trusted
+//@   modifies lib.EventsTracker.Events, elems(*lib.Event)
+//@ func (*StateMachine).DistributeCommitteeRewards
+//@   loop 1 invariant[conserve] (drift(s) - old(drift(s))) % (MaxUint64 + 1) == 0
+//@   loop 2 invariant[paid] allTokens(s) == atentry(allTokens(s)) + totalDistributed && supTotal(s) == atentry(supTotal(s)) && poolBal() == atentry(poolBal()) && poolSum(s) == atentry(poolSum(s))
+//@   ensures[conserve] result == nil ==> (drift(s) - old(drift(s))) % (MaxUint64 + 1) == 0
 // finishing an unstake: the stake goes to the validator's output address and leaves the stake sum; nothing is
 // created or destroyed
 //@ func (*StateMachine).EventFinishUnstaking
